@@ -247,7 +247,7 @@ def straddling_message(rng, kind, end_at):
 def monitor(case, out):
     """the property itself on one implementation run: no panic, at most 4096 bytes of a message consumed,
     whatever is accepted re-serialises to bytes that parse back to the same value"""
-    op, data = case
+    op, data = case[0], bytes.fromhex(case[1])
     if out[0] == "PANIC":
         return ("%s parser panics on %d bytes: %s" % (op, len(data), " ".join(out[1:])[:100]), {"op": op, "bytes_hex": data.hex()})
     ints = out[1:]
@@ -316,9 +316,7 @@ def load_corpus():
     return cases
 
 
-def main():
-    c = vplib.Check("C30")
-    c.run_gate()
+def build_cases(c):
     rng = c.rng
     thorough = c.tier == "thorough"
     cases = load_corpus()
@@ -383,7 +381,6 @@ def main():
     for s in utf:
         cases.append(("rec", rec(rng.choice([6, 13, 14]), s)))
     dist["utf8_strings"] = len(cases) - n0
-    c.cov["utf8_exhaustive_1_2_bytes"] = thorough
 
     # 3. messages: grammar + record-level mutations + truncations
     n0 = len(cases)
@@ -417,6 +414,15 @@ def main():
         cases.append((kind, rec(8, b"") * 1024 + rec(0, b"")))
     dist["cap_straddling"] = len(cases) - n0
     dist["total"] = len(cases)
+    c.cov["utf8_exhaustive_1_2_bytes"] = thorough
+    return [[op, data.hex()] for op, data in cases], dist
+
+
+def main():
+    c = vplib.Check("C30")
+    c.run_gate()
+    cases, dist = build_cases(c)
+    cases = vplib.replay_cases() or cases
     cases, per_shard = balance(cases, vplib.NCPU)
 
     outcome = {"accepted": 0, "rejected": 0, "panic": 0}
@@ -436,25 +442,25 @@ def main():
 
     def coq_case(case, out):
         op, data = case
-        inp = "(%d, %s)" % (OPS[op], chunks(data.hex(), 6000))
+        inp = "(%d, %s)" % (OPS[op], chunks(data, 6000))
         if out[0] == "PANIC":
             return inp, "[2]"
         return inp, hexints([int(x) for x in out[1:]])
 
     vplib.correspondence(
         c, "ntp-proto", cases,
-        line_of=lambda case: "%s %s" % (case[0], case[1].hex() if case[1] else "-"),
+        line_of=lambda case: "%s %s" % (case[0], case[1] or "-"),
         coq_case_of=coq_case,
         preamble=PREAMBLE,
         checker="mismatches zlist_eqb run30s",
         monitor=monitor,
         nontrivial=nontrivial,
         shard=per_shard,
-        sample_of=lambda case, out: {"op": case[0], "bytes_hex": case[1].hex()[:120], "len": len(case[1]), "implementation": " ".join(out)[:160]},
+        sample_of=lambda case, out: {"op": case[0], "bytes_hex": case[1][:120], "len": len(case[1]) // 2, "implementation": " ".join(out)[:160]},
     )
     dist["outcomes"] = outcome
     dist["error_classes"] = {str(k): v for k, v in sorted(errs.items())}
-    dist["max_len"] = max(len(x[1]) for x in cases)
+    dist["max_len"] = max(len(x[1]) for x in cases) // 2
     c.cov["distribution"] = dist
     c.cov["rule"] = ("records of all 14 kinds + unknown types with both critical bits, boundary bodies, length-field lies, "
                      "truncations; UTF-8 strings (boundary grid; all 1-2 byte strings in the thorough tier); request and response "
@@ -470,8 +476,8 @@ def main():
 
 
 MANIFEST = {
-    "claimed": False,
-    "text": "",
-    "note": "",
-    "design_ref": "DESIGN.md 3 C30",
+    "claimed": True,
+    "text": "Theorems (Coq, all byte lists of any length, no bound): the record, request and response parsers never panic (C30_total_record/_request/_response; the model's panic sites are the guarded algorithms[0]/protocols[0] of Request::parse and exhaustion of the record-loop fuel, i.e. non-termination); in every outcome, accepted or rejected, a message parser has consumed a prefix of at most 4096 bytes and its outcome is its outcome on the first 4096 bytes (C30_bounded_*, C30_*_sees_4096); whatever a parser accepts re-serialises to bytes that parse back to the same value whatever follows (C30_record_roundtrip, C30_request_roundtrip, C30_response_roundtrip), the re-serialisation being no longer than what was consumed, hence within the cap (C30_*_reserialisation_*). Tie: NtsRecord/Request/KeyExchangeResponse parse+serialize driven on in-memory readers, compared with the model on outcome class, bytes consumed (also on errors), parsed value and re-serialised bytes, on ~3700 (quick) structured, boundary, malformed and cap-straddling inputs per run.",
+    "note": 'Trusted: Coq kernel+vm_compute; hand-written byte-level models coq/Model/NtsRecord.v, NtsMsg.v (incl. a Gallina UTF-8 validator mirroring core::str::from_utf8, cross-checked on a boundary grid each run and on all 1-2 byte strings in the thorough tier); the reader is an in-memory reader (end of input = EOF; TLS transport errors are outside the model); enum-with-Unknown ids modelled by their u16 value (harness flags any non-canonical parsed value); fixed-key ciphers are their key bytes (32/64, sizes from the crypto crate, hard-coded); serialisation modelled for bodies that fit a u16 (every parsed value); constants and a census of the mirrored constructs (dispatch arms, take(MAX_MESSAGE_SIZE), [0] indexings) regenerated from the sources each run (Gen/ConstNts.v); harness + python driver + hex transport decoder (Base/NtsHex.v). Print Assumptions: closed under the global context for all 15 theorems.',
+    "design_ref": 'DESIGN.md 3 C30',
 }
